@@ -8,4 +8,6 @@ GenInit == InitState /\ hist = <<>>
 GenNext == Next /\ hist' = Append(hist, step')
 GenSpec == GenInit /\ [][GenNext]_<<vars, step, hist>>
 GenBound == Len(hist) <= L
+(* simulation mode: print each walk once, when it reaches length L (always TRUE) *)
+SimPrint == (Len(hist) = L) => PrintT(<<"SIMPATH", ToString(cfg), ToString(hist)>>)
 =============================================================================
